@@ -19,7 +19,8 @@ func TestSweep(t *testing.T) {
 	rec := kit.NewRecorder(env, "sweep")
 	defer func() { rec.Flush(!t.Failed()) }()
 	rates := append([]float64{1, 2, 3, 7, 0.5, 0.01, 1000, 999999, 1000000, 1e7, 1024, 12345.678}, StdRates...)
-	for _, base := range []float64{8000, 22050, 44100, 48000, 96000, 1000, 1} { // rates next to an integer
+	rates = append(rates, 512, 2560, 12800, 64000, 320000, 1600000, 8e6, 1e9/3125, 1e9/25) // whole-nanosecond periods, odd ones included
+	for _, base := range []float64{8000, 22050, 44100, 48000, 96000, 1000, 1} {            // rates next to an integer
 		for _, eps := range []float64{5e-10, -6e-10, 1e-11, -1e-12, 3e-8} {
 			rates = append(rates, base+eps)
 		}
@@ -32,6 +33,19 @@ func TestSweep(t *testing.T) {
 			ds = append(ds, n, n*1000003%day)
 		}
 		maxN := int64(math.Floor(f * 86400))
+		// the arguments right before and after the first few rounding ties of Events and Duration
+		for k := int64(0); k < 40; k++ {
+			d0 := int64(math.Floor((float64(k) + 0.5) * 1e9 / f))
+			n0 := int64(math.Floor((float64(k) + 0.5) * f / 1e9))
+			for off := int64(-1); off <= 1; off++ {
+				if d := d0 + off; d >= 0 && d <= day {
+					ds = append(ds, d)
+				}
+				if n := n0 + off; n >= 0 && n <= int64(math.Floor(f*86400)) {
+					ns = append(ns, n)
+				}
+			}
+		}
 		ns = append(ns, maxN, maxN-1, maxN-2)
 		ds = append(ds, day, day-1, day-2)
 		for h := int64(1); h <= 24; h++ {
